@@ -33,10 +33,10 @@ CHECKS = {
     "concept_drift/lfr.py": ["C06", "C01", "C16", "C17", "C14"],
     "concept_drift/md3.py": ["C19", "C01", "C15"],
     "data_drift/histogram_density_method.py": ["C07", "C02", "C18", "C17", "C01", "C14", "C12"],
-    "data_drift/hdddm.py": ["C07", "C02", "C18", "C17"],
-    "data_drift/cdbd.py": ["C07", "C02", "C18", "C14"],
+    "data_drift/hdddm.py": ["C07", "C02", "C01", "C18", "C17"],
+    "data_drift/cdbd.py": ["C07", "C02", "C01", "C18", "C14"],
     "data_drift/kdq_tree.py": ["C09", "C02", "C18", "C17", "C01", "C14", "C12"],
-    "data_drift/nndvi.py": ["C10", "C18", "C02", "C17", "C14"],
+    "data_drift/nndvi.py": ["C10", "C01", "C18", "C02", "C17", "C14"],
     "data_drift/pca_cd.py": ["C11", "C01", "C14", "C15"],
     "partitioners/KDQTreePartitioner.py": ["C08", "C09", "C18"],
     "partitioners/NNSpacePartitioner.py": ["C10", "C18"],
